@@ -1,5 +1,6 @@
 """C13 - separate parser/generator instances never influence each other."""
 import itertools
+import os
 import sys
 import threading
 
@@ -18,7 +19,8 @@ RULE = (
     "exhaustive - all interleavings of program pairs with clashing names and 5-7 token() calls each; Hypothesis - schedules for "
     "2-4 generated/pool programs of up to ~60 tokens. The same controller drives CGenerator subclasses that yield at every "
     "visit() and two different NodeVisitor subclasses that yield at every visit(). Plus 4-8 free-running threads "
-    "(switch interval 1e-6 s) each parsing and regenerating its own programs repeatedly. Oracle: every result (AST dump with "
+    "(switch interval 1e-6 s) each parsing and regenerating its own programs repeatedly; 4 (quick) / 24 (thorough) fresh interpreters in "
+    "which 12 threads create the first parser objects of the process together. Oracle: every result (AST dump with "
     "coordinates / exception type+message / generated text / visit log) equals the result of the same call run alone; for parses "
     "'alone' is computed by a private copy of the pycparser package created for that one call (module- and class-level state "
     "of the classes under test cannot reach it), and for the pool programs additionally by a forked process without any parsing "
@@ -575,6 +577,64 @@ def free_threads_shard(arg):
     return st
 
 
+COLD_CHILD = r"""
+import sys, threading, json
+sys.path.insert(0, sys.argv[1])
+sys.setswitchinterval(1e-6)
+from pycparser import c_parser
+srcs = json.loads(sys.argv[2])
+n = len(srcs)
+res = [None] * n
+bar = threading.Barrier(n)
+def work(i):
+    bar.wait()
+    try:
+        ast = c_parser.CParser().parse(srcs[i], "t%d.c" % i)
+        res[i] = ["ok", len(ast.ext), [str(e.coord) for e in ast.ext][:40]]
+    except BaseException as e:
+        res[i] = ["err", type(e).__name__, str(e)[:200]]
+ths = [threading.Thread(target=work, args=(i,)) for i in range(n)]
+[t.start() for t in ths]
+[t.join() for t in ths]
+print(json.dumps(res))
+"""
+
+
+def cold_start_shard(arg):
+    """The very first parser objects of a process, created by threads that start
+    together: whatever the package sets up lazily on first use must not be
+    observable.  Each attempt is a fresh interpreter; the expected results come
+    from private copies in this process."""
+    import json
+    import subprocess
+
+    from ..pristine import private_call
+
+    attempt, nthreads = arg
+    st = Stats()
+    srcs = [POOL[(attempt * 3 + i) % 14] for i in range(nthreads)]
+    exp = []
+    for i, s in enumerate(srcs):
+        r = private_call("parse_dump", s, "t%d.c" % i)
+        exp.append(("ok",) if r[0] == "ok" else ("err", r[1], r[2][:200]) if r[0] == "err" else ("recursion",))
+    env = dict(os.environ, PYTHONHASHSEED="0", PYTHONDONTWRITEBYTECODE="1")
+    p = subprocess.run([sys.executable, "-c", COLD_CHILD, os.environ.get("PYCPARSER_REPO", "/repo"), json.dumps(srcs)], capture_output=True, text=True, env=env, timeout=600)
+    st.evaluations += nthreads
+    st.classes["cold_start_parses"] += nthreads
+    try:
+        got = json.loads(p.stdout.strip().splitlines()[-1])
+    except Exception:  # noqa: BLE001
+        st.failures.append(dict(subcheck="harness", case=("cold", attempt, nthreads), text="", detail="cold-start child gave no result (rc=%s): %s" % (p.returncode, p.stderr[-300:]), sig="harness-cold"))
+        return st
+    for i, (g, e) in enumerate(zip(got, exp)):
+        same = (g[0] == "ok" and e[0] == "ok") or (g[0] == "err" and e[0] == "err" and g[1] == e[1] and g[2] == e[2]) or (g[0] == "err" and g[1] == "RecursionError" and e[0] == "recursion")
+        if not same:
+            st.failures.append(dict(subcheck="free-threads", case=("cold", attempt, nthreads), text=srcs[i], detail="thread %d of %d parsers created together as the first parsers of a fresh process: %s, alone: %s" % (i, nthreads, g[:3], e[:3]), sig="cold-start-differs"))
+            break
+    st.nontrivial += 1
+    return st
+
+
 def run(ctx):
     nparts = 4
     nprog = len(POOL) + 2 * len(SHORT_PAIRS)
@@ -587,6 +647,7 @@ def run(ctx):
     ctx.map(exhaustive_shard, [(pi, p, nparts) for pi in range(npairs) for p in range(nparts)])
     ctx.map(random_shard, [(s, ctx.pick(150, 2500)) for s in ctx.shard_seeds(16)])
     ctx.map(free_threads_shard, [(4, ctx.pick(40, 400)), (8, ctx.pick(25, 300))])
+    ctx.map(cold_start_shard, [(ctx.seed * 7 + a, 12) for a in range(ctx.pick(4, 24))])
     ctx.exhaustive = True
     ctx.extra["exhaustive_bounds"] = "all interleavings (token() granularity) of %d clashing program pairs" % npairs
 
@@ -597,6 +658,10 @@ def replay(subcheck, case):
         check_parsers(case[1], case[2], st)
     elif case[0] == "gensub":
         check_generator_subclasses(list(case[1]), [tuple(o) for o in case[2]], st)
+    elif case[0] == "cold":
+        r = cold_start_shard((case[1], case[2]))
+        if r.failures:
+            raise CheckFailure(**r.failures[0])
     elif case[0] == "free":
         r = free_threads_shard((case[1], case[2]))
         if r.failures:
